@@ -359,12 +359,25 @@ def _check_main(ctx, rep: Report):
     for meth, slot in (("getter", 0), ("setter", 1), ("deleter", 2)):
         c, m = ctx.p.lookup_method(base, meth)
         calls = [n for n in ast.walk(m[0].node) if isinstance(n, ast.Call) and ast.unparse(n.func) in ("type(self)", "self.__class__")]
+        subst = {}
+        if not calls:
+            # the rebuild may be delegated to a private method of the class: follow it, binding its parameters
+            for n in ast.walk(m[0].node):
+                if isinstance(n, ast.Call) and isinstance(n.func, ast.Attribute) and ast.unparse(n.func.value) == "self" and n.func.attr.startswith("_"):
+                    c2, m2 = ctx.p.lookup_method(base, n.func.attr)
+                    if isinstance(m2, list):
+                        inner = [x for x in ast.walk(m2[0].node) if isinstance(x, ast.Call) and ast.unparse(x.func) in ("type(self)", "self.__class__")]
+                        if inner:
+                            params = [a_.arg for a_ in m2[0].node.args.args][1:]
+                            subst = {p_: ast.unparse(a_) for p_, a_ in zip(params, n.args)}
+                            subst.update({k_.arg: ast.unparse(k_.value) for k_ in n.keywords if k_.arg})
+                            calls = inner
         bad = []
         if not calls:
             bad.append("does not rebuild the descriptor with type(self)(...)")
         else:
             call = calls[0]
-            pos = [ast.unparse(a) for a in call.args]
+            pos = [subst.get(ast.unparse(a), ast.unparse(a)) for a in call.args]
             param = m[0].node.args.args[1].arg
             want = ["self.fget", "self.fset", "self.fdel"]
             want[slot] = param
